@@ -34,10 +34,15 @@ use super::{cv::*, ops::*};
 #[derive(Clone, Debug)]
 pub struct AtkOpts {
     pub small: ArsBudget,
-    /// budget for circuits with k >= 14 (table set-up dominates there)
+    /// foreign chips: their multi-select lookup reads advice columns, so every ARS node rescans
+    /// the whole lookup (tens of ms per node already at k = 9)
+    pub foreign_small: ArsBudget,
+    /// budget for circuits with k >= 14 (seconds per node)
     pub big: ArsBudget,
     pub real_k_max: u32,
     pub max_targets: usize,
+    pub max_targets_foreign: usize,
+    pub max_targets_big: usize,
     pub hint_cells: usize,
 }
 
@@ -296,26 +301,39 @@ pub fn attack_stage<V: Cv>(e: &Entry<V>, input: &Vec<Val>, input_index: usize, k
             Ok(Ok(t2)) => t2.advice == honest_adv,
             _ => false,
         };
-    let budget = if k >= 14 { &opts.big } else { &opts.small };
+    let (budget, max_targets) = if k >= 14 {
+        (&opts.big, opts.max_targets_big)
+    } else if V::FOREIGN {
+        (&opts.foreign_small, opts.max_targets_foreign)
+    } else {
+        (&opts.small, opts.max_targets)
+    };
     let mut rng = mzv::common::rng_for(seed, &format!("atk-{name}-{input_index}"));
     let mut targets = slot_targets::<V>(e, &vals, &pi);
-    if targets.len() > opts.max_targets {
-        // keep a seeded subset, but always the first two targets of every slot kind
+    let _ = &mut targets;
+    if targets.len() > max_targets {
+        // fixed priority of attack kinds (outputs before inputs within a kind), then a seeded
+        // choice among the rest
+        const PRIO: [&str; 9] = ["x+1", "identity-flag-flipped", "negated", "plus-generator", "+1", "bit-complement", "plus-order8-torsion", "y+1", "swapped-coordinates"];
         let mut keep: Vec<Target> = vec![];
         let mut rest: Vec<Target> = vec![];
-        let mut seen_kinds: BTreeMap<String, usize> = BTreeMap::new();
+        let mut taken: BTreeSet<String> = BTreeSet::new();
+        targets.sort_by_key(|t| t.label.starts_with("in@"));
         for t in targets {
             let kind = t.label.split(':').nth(1).unwrap_or("").to_string();
-            let n = seen_kinds.entry(kind).or_insert(0);
-            if *n < 1 {
-                *n += 1;
+            if PRIO.contains(&kind.as_str()) && taken.insert(format!("{}{}", &t.label[..2], kind)) {
                 keep.push(t);
             } else {
                 rest.push(t);
             }
         }
+        keep.sort_by_key(|t| {
+            let kind = t.label.split(':').nth(1).unwrap_or("");
+            (PRIO.iter().position(|p| *p == kind).unwrap_or(99), t.label.starts_with("in@"))
+        });
+        keep.truncate(max_targets);
         rest.shuffle(&mut rng);
-        while keep.len() < opts.max_targets {
+        while keep.len() < max_targets {
             match rest.pop() {
                 Some(t) => keep.push(t),
                 None => break,
